@@ -1253,7 +1253,7 @@ func (c *Ctx) ruleQueries() {
 						continue
 					}
 					ia, ok := u.X.(*ssa.IndexAddr)
-					if !ok || !isRangeIndex(ia.Index) {
+					if !ok || !(isRangeIndex(ia.Index) || isFullIndexLoopOver(ia.Index, ia.X)) {
 						continue
 					}
 					for _, l := range P.Resolve(ia.X) {
